@@ -45,6 +45,7 @@ def dispatch (line : String) : String :=
       | "signull" => handleSigNull args obs
       | "sigasync" => handleSigAsync args obs
       | "boolgate" => handleBoolGate args obs
+      | "boolstr" => handleBoolStr args obs
       | "armrun" => handleArmRun args obs
       | "armcompile" => handleArmCompile args obs
       | _ => bad ("unknown-tag:" ++ tag)
